@@ -1,5 +1,6 @@
 (* C12 correspondence cases: what the implementation answered, to be compared with the model *)
 From FB Require Export C12.Model.
+From FB Require Import C12.TheoryRT.   (* only for the decidable hypothesis enigma_okb / dir_okb *)
 
 (* code points below 128 as constants: the harness prints `c67` instead of `67` (a numeral costs a
    number-notation interpretation each, which dominated the time to load a shard) *)
@@ -31,12 +32,14 @@ Definition dir_res_eqb (a b : res (list (str * str))) : bool :=
 
 Inductive case :=
 (* one mapping set through the whole public API (the set is printed once):
+   ok      = the harness' own (independently written) decision whether the set satisfies the
+             hypotheses of the round-trip theorems: must agree with enigma_okb
    wall    = enigma_file::write_all
    back    = enigma_file::read_into (fresh mappings) on the text write_all returned, IndexMap order
    ones    = enigma_file::write_one for some file names (existing and not)
    dirw    = enigma_dir::write into an empty directory: the files found afterwards
    dirback = enigma_dir::read of that directory *)
-| CSet (M : list class) (wall : res str) (back : option (res (list class)))
+| CSet (M : list class) (ok : bool) (wall : res str) (back : option (res (list class)))
        (ones : list (str * res str))
        (dirw : option (res (list (str * str)))) (dirback : option (res (list class)))
 | CRead (text : str) (r : res (list class))                (* enigma_file::read_into on fresh mappings *)
@@ -44,8 +47,9 @@ Inductive case :=
 
 Definition check (c : case) : bool :=
   match c with
-  | CSet M wall back ones dirw dirback =>
-      res_eqb str_eqb (write_all M) wall
+  | CSet M ok wall back ones dirw dirback =>
+      Bool.eqb (enigma_okb M) ok
+      && res_eqb str_eqb (write_all M) wall
       && (match back, write_all M with
           | Some r, Ok t => res_eqb classes_eqb (read_all t) r
           | Some _, Err => false
